@@ -94,6 +94,24 @@ pub struct SlabRouter {
     checkpoint_counter: AtomicU64,
 }
 
+/// Verification hook: a schedule point between logging a durable write and applying it
+/// in memory. The installed callback receives the key; `None` (the default) does nothing.
+#[cfg(feature = "neumann_verif")]
+pub static VERIF_DURABLE_WINDOW: std::sync::RwLock<
+    Option<std::sync::Arc<dyn Fn(&str) + Send + Sync>>,
+> = std::sync::RwLock::new(None);
+
+#[cfg(feature = "neumann_verif")]
+fn verif_durable_window(key: &str) {
+    let hook = VERIF_DURABLE_WINDOW
+        .read()
+        .ok()
+        .and_then(|guard| guard.clone());
+    if let Some(hook) = hook {
+        hook(key);
+    }
+}
+
 impl SlabRouter {
     /// Create a new slab router with default configuration.
     #[must_use]
@@ -499,6 +517,9 @@ impl SlabRouter {
             .map_err(|e| SlabRouterError::WalError(format!("Failed to log put: {e}")))?;
         }
 
+        #[cfg(feature = "neumann_verif")]
+        verif_durable_window(key);
+
         // Apply to in-memory state
         self.put(key, value)
     }
@@ -540,6 +561,9 @@ impl SlabRouter {
             })
             .map_err(|e| SlabRouterError::WalError(format!("Failed to log delete: {e}")))?;
         }
+
+        #[cfg(feature = "neumann_verif")]
+        verif_durable_window(key);
 
         // Apply to in-memory state
         self.delete(key)
